@@ -401,6 +401,10 @@ func (env *SpecEnv) sel(x *SSel) Val {
 	if f, ok := obj.(*types.Var); ok && f.IsField() {
 		return u.readPathNoCheck(env.st, base, path)
 	}
+	if key, sort, ty, ok := u.ghostFieldKey(base.Ty, x.Name); ok {
+		_, vs := arraySorts(sort)
+		return Val{T: app("select", u.heapGet(env.st, key, sort), base.T), Ty: ty, So: vs}
+	}
 	env.fail("no field %s in %v", x.Name, base.Ty)
 	return Val{}
 }
@@ -582,6 +586,16 @@ func (env *SpecEnv) call(x *SCall) Val {
 		case "zero":
 			ty, _ := u.resolveType(env.home, x.Args[0].(*SType).T)
 			return u.zero(ty)
+		case "args":
+			anyT := types.NewInterfaceType(nil, nil)
+			st := types.NewSlice(anyT)
+			so := u.sortOf(st)
+			arr := u.d.constant("emptyarr_Int", "(Array Int Int)")
+			for i, a := range x.Args {
+				v := u.convert(env.eval(a), anyT)
+				arr = app("store", arr, strconv.Itoa(i), v.T)
+			}
+			return Val{T: u.mkSlice(so, arr, "0", strconv.Itoa(len(x.Args)), "false"), Ty: st, So: so}
 		case "mk":
 			ty, so := u.resolveType(env.home, x.Args[0].(*SType).T)
 			st, ok := ty.Underlying().(*types.Struct)
@@ -1128,4 +1142,26 @@ func (e *Engine) findTypesPackage(nameOrPath string) *types.Package {
 		walk(p.Types)
 	}
 	return found
+}
+
+// ghostFieldKey resolves a ghost field of (a pointer to) a named struct type.
+func (u *Unit) ghostFieldKey(t types.Type, name string) (key, sort string, ty types.Type, ok bool) {
+	pt, isPtr := isPointer(t)
+	if !isPtr {
+		return
+	}
+	named, isNamed := types.Unalias(pt.Elem()).(*types.Named)
+	if !isNamed || named.Obj().Pkg() == nil {
+		return
+	}
+	k := named.Obj().Pkg().Path() + "." + named.Obj().Name()
+	for _, gf := range u.eng.ghostFields[k] {
+		if gf.Name == name {
+			home := u.eng.pkgs[u.eng.ghostFieldHome[k]]
+			gty, gso := u.resolveType(home, gf.Type)
+			so := u.sortOf(pt.Elem())
+			return "H_" + so + "_$" + mangle(name), "(Array Int " + gso + ")", gty, true
+		}
+	}
+	return
 }
